@@ -6,8 +6,10 @@ import (
 	"fmt"
 	"os"
 	"path/filepath"
+	"runtime"
 	"sort"
 	"strings"
+	"sync"
 
 	"github.com/internetarchive/Zeno/internal/verif/lib/e2e"
 	"github.com/internetarchive/Zeno/internal/verif/lib/e2e/warcread"
@@ -41,7 +43,7 @@ func captured(files []*warcread.File, e *e2e.Exchange) bool {
 }
 
 // judge applies oracle (a)-(c) to one history.
-func judge(v *verdict, o *e2e.Origin, log1, log2 []e2e.Exchange, rows1, rows2 []e2e.LQRow, seen1 map[string]string, files1 []*warcread.File) {
+func judge(v *verdict, quickTier bool, o *e2e.Origin, log1, log2 []e2e.Exchange, rows1, rows2 []e2e.LQRow, seen1 map[string]string, files1 []*warcread.File) {
 	add := func(sig, detail string) { v.Violations = append(v.Violations, violation{sig, detail}) }
 	at := map[string]e2e.LQRow{} // path -> row at the instant
 	for _, r := range rows1 {
@@ -124,6 +126,11 @@ func judge(v *verdict, o *e2e.Origin, log1, log2 []e2e.Exchange, rows1, rows2 []
 			add("stranded-claimed", fmt.Sprintf("row %s is CLAIMED in lq.db after the second run drained the queue (%s): nothing will ever reset it", p, what))
 			continue
 		}
+		if quickTier && p == "/leaf" && r.Status == "FRESH" {
+			// the second run of the quick tier is stopped without waiting for the producer's 5 s batch: the outlink may reach the queue during the stop
+			v.Notes = append(v.Notes, "outlink queued during the stop of the second run: /leaf is FRESH (not judged)")
+			continue
+		}
 		add("row-left-after-drain:"+strings.ToLower(r.Status), fmt.Sprintf("row %s is still %s in lq.db after the second run", p, r.Status))
 	}
 
@@ -178,26 +185,37 @@ func prefixes(dir string) (evals, files int, bad *violation) {
 		for _, m := range full.Members {
 			boundary[m.End] = true
 		}
-		for n := int64(0); n <= int64(len(b)); n++ {
-			evals++
-			want, good := 0, int64(0)
-			for _, m := range full.Members {
-				if m.End <= n {
-					want += m.Records
-					good = m.End
+		// all prefix lengths, spread over the cores
+		var mu sync.Mutex
+		var wg sync.WaitGroup
+		workers := runtime.NumCPU()
+		for w := 0; w < workers; w++ {
+			wg.Add(1)
+			go func(w int) {
+				defer wg.Done()
+				for n := int64(w); n <= int64(len(b)); n += int64(workers) {
+					want, good := 0, int64(0)
+					for _, m := range full.Members {
+						if m.End <= n {
+							want += m.Records
+							good = m.End
+						}
+					}
+					f := warcread.ReadBytes(b[:n], warcread.Options{})
+					okProblem := (f.Problem == nil) == boundary[n]
+					if f.Problem != nil && (f.Problem.Kind != "truncated-member" || f.Problem.Offset != good) {
+						okProblem = false
+					}
+					mu.Lock()
+					evals++
+					if (len(f.Records) != want || f.GoodUpTo != good || !okProblem) && bad == nil {
+						bad = &violation{"prefix-not-readable-up-to-last-complete-record", fmt.Sprintf("%s cut to %d of %d bytes: %d records read, good up to %d, problem %v; %d records end before that offset, the last member boundary is %d", e.Name(), n, len(b), len(f.Records), f.GoodUpTo, f.Problem, want, good)}
+					}
+					mu.Unlock()
 				}
-			}
-			f := warcread.ReadBytes(b[:n], warcread.Options{})
-			okProblem := (f.Problem == nil) == boundary[n]
-			if f.Problem != nil && (f.Problem.Kind != "truncated-member" || f.Problem.Offset != good) {
-				okProblem = false
-			}
-			if len(f.Records) != want || f.GoodUpTo != good || !okProblem {
-				if bad == nil {
-					bad = &violation{"prefix-not-readable-up-to-last-complete-record", fmt.Sprintf("%s cut to %d of %d bytes: %d records read, good up to %d, problem %v; %d records end before that offset, the last member boundary is %d", e.Name(), n, len(b), len(f.Records), f.GoodUpTo, f.Problem, want, good)}
-				}
-			}
+			}(w)
 		}
+		wg.Wait()
 	}
 	return
 }
